@@ -44,9 +44,11 @@ impl ProtoFmt for time::Utc {
     type Proto = proto::std::Timestamp;
 
     fn read(r: &Self::Proto) -> anyhow::Result<Self> {
-        let seconds = *required(&r.seconds).context("seconds")?;
-        let nanos = *required(&r.nanos).context("nanos")?;
-        Ok(time::UNIX_EPOCH + time::Duration::new(seconds, nanos))
+        let d: time::Duration = ProtoFmt::read(&proto::std::Duration {
+            seconds: r.seconds,
+            nanos: r.nanos,
+        })?;
+        Ok(time::UNIX_EPOCH + d)
     }
 
     fn build(&self) -> Self::Proto {
@@ -64,7 +66,10 @@ impl ProtoFmt for time::Duration {
     fn read(r: &Self::Proto) -> anyhow::Result<Self> {
         let seconds = *required(&r.seconds).context("seconds")?;
         let nanos = *required(&r.nanos).context("nanos")?;
-        Ok(Self::new(seconds, nanos))
+        // `Duration::new(seconds, nanos)` panics if normalizing `nanos` overflows `seconds`.
+        Self::seconds(seconds)
+            .checked_add(Self::nanoseconds(nanos.into()))
+            .context("duration overflow")
     }
 
     fn build(&self) -> Self::Proto {
